@@ -31,6 +31,12 @@ Check C20_aggregate_err :
   forall l t,
   use_keyspace_result l = AErr t <->
   exists l1 l2, l = l1 ++ CErr t :: l2 /\ forallb (fun x => negb (is_err x)) l1 = true.
+Check C20_aggregate_ok_each :
+  forall l,
+  use_keyspace_result l = AOk -> forall x, In x l -> x = COk \/ exists t, x = CBroken t.
+Check C20_pool_answer_err :
+  forall r,
+  answer_of r = PAErr <-> exists c, In c (cov r) /\ is_err (outcome (stat r c)) = true.
 Check C20_aggregate_panic :
   forall l, use_keyspace_result l = APanic <-> l = [].
 Check C20_inv :
@@ -81,6 +87,8 @@ Print Assumptions C20_verify_result.
 Print Assumptions C20_verify_honest.
 Print Assumptions C20_aggregate_ok.
 Print Assumptions C20_aggregate_err.
+Print Assumptions C20_aggregate_ok_each.
+Print Assumptions C20_pool_answer_err.
 Print Assumptions C20_aggregate_panic.
 Print Assumptions C20_inv.
 Print Assumptions C20_setup_first.
